@@ -28,6 +28,8 @@ PROP = Property(
                replay="custom:replay_preliminary_verify", timeout=3000, tier="thorough") for sh in [(0, 0, 0), (1, 1, 0), (1, 2, 0), (2, 1, 1), (2, 2, 1), (2, 2, 2)]]
           + [H("c01_verify_n%d_%d_%d" % sh, "bounded", "Ok ==> preliminary_verify post and BlsSignature::verify_aggregate(msg||root, [vk_j], [sigma_j]) succeeded on exactly the contained (signature, committed key) pairs",
                ["ConcatenationProof::verify"], bound="shape: %d signatures with (%d, %d) indices" % sh, replay="custom:replay_preliminary_verify", timeout=3000, tier="thorough") for sh in [(1, 1, 0), (2, 1, 1), (2, 2, 1)]]
+          + [H("c01_preliminary_verify_membership_operands", "bounded", "the Merkle membership check inside preliminary_verify receives exactly [(committed key_j, committed stake_j)] of EVERY signature in order, this proof's batch path and the avk's commitment, whatever the batch path's own shape (contract assumed by the Verus unit for the filter_map/collect expression)",
+               ["ConcatenationProof::preliminary_verify"], bound="1 signature x 1 index with an EMPTY batch path (concrete shape), symbolic stake / root", replay="custom:replay_preliminary_verify", timeout=600)]
           + [H("c01_collect_signatures_verification_keys_in_order", "bounded", "returned (sigs, vks) == [(sigma_j, committed key_j)] in signature order (contract assumed by the Verus unit preliminary_verify)",
                ["ConcatenationProof::collect_signatures_verification_keys"], bound="2 signatures", replay="none", timeout=600)]
         )],
@@ -41,8 +43,9 @@ PROP = Property(
         "extracted text of ConcatenationProof::preliminary_verify / verify and the accessors they use, unbounded in signatures and indices: Ok ==> every index of every signature < m and WON with that "
         "signature's own committed stake and the avk's total stake on msg||root; all indices over all signatures pairwise distinct (flat sequence has no duplicates); their number >= k; "
         "Merkle membership of [(vk_j, stake_j)] in signature order against the avk commitment with this proof's batch path; returned operands == [(sigma_j, vk_j)]; verify additionally: "
-        "BLS aggregate verification of msg||root on exactly those operands",
-        ["ConcatenationProof::preliminary_verify", "ConcatenationProof::verify", "SingleSignature::check_indices", "SingleSignature::get_concatenation_signature_indices",
+        "BLS aggregate verification of msg||root on exactly those operands; batch_verify: Ok ==> EACH member passes preliminary_verify with ITS OWN message, aggregate key and parameters, and the batched BLS check ran on "
+        "each member's own aggregated (keys, signatures) and its own msg||root",
+        ["ConcatenationProof::preliminary_verify", "ConcatenationProof::verify", "ConcatenationProof::batch_verify", "SingleSignature::check_indices", "SingleSignature::get_concatenation_signature_indices",
          "SingleSignature::get_concatenation_signature_sigma", "SingleSignatureForConcatenation::get_indices", "SingleSignatureForConcatenation::get_sigma",
          "ClosedRegistrationEntry::get_stake", "ClosedRegistrationEntry::get_verification_key_for_concatenation", "AggregateVerificationKeyForConcatenation::get_total_stake"],
         paired_kani=["c01_preliminary_verify_n1_1_0", "c01_preliminary_verify_n1_2_0"])],
@@ -55,6 +58,7 @@ PROP = Property(
         "is_lottery_won is a contract stub here; decided (partly) under C08",
         "std HashSet<u64>: in Verus vstd's specification of std::collections::HashSet (insert / len as a mathematical set); in the Kani harnesses HashSet::insert / len are contract stubs over a ghost array (hashbrown executed symbolically does not terminate) - std HashSet assumed to implement a set",
         "Verus extraction rewrites for preliminary_verify (complete list in the template): StmResult<T> -> Result<T, AggregationError>; .with_context(..) removed; `for x in self.signatures.clone()` -> `for x in it: self.signatures.iter()`; `for &index in &E` -> `let verif_indices = E; for index in it2: verif_indices.iter() { let index = *index;`; Err(anyhow!(E)) -> Err(E); the iterator expression building `leaves` (filter_map/collect) -> collect_leaves contract (checked by the Kani harnesses); generic parameter <D> dropped",
+        "batch_verify rewrites: the three assert_eq! on slice lengths become the precondition; `for (idx, g) in v.iter().enumerate()` -> `for idx in 0..n { let g = &v[idx];`; the three map/collect / zip expressions -> contract fns; `.unwrap()` on BlsSignature::aggregate -> `?`",
         "total number of indices in one aggregate <= usize::MAX (counter overflow precondition; memory-bounded in reality)",
         "re-encodings (JSON/CBOR/legacy bytes) are not part of this unit: contracts are on the decoded value (decoders: C05)",
     ],
